@@ -61,6 +61,11 @@ def bounded(check, tier, seed):
         if "\x1b" in t:
             raw += [FmtStr(Chunk(t)), "" + FmtStr(Chunk(t[:3])) + t[3:], fmtstr("q").copy_with_new_str(t)]
     P = P + raw
+    # attribute values that compare equal as Python objects but render differently (0 == False, 31 == 31.0): what
+    # fmtstr('a', bold=flags & 1) or a computed colour builds (style values are not type-checked: C14's listed finding)
+    for t in ("a", "ab"):
+        P += [FmtStr(Chunk(t, {"bold": 0})), FmtStr(Chunk(t, {"bold": False})), FmtStr(Chunk(t, {"bold": 1})), FmtStr(Chunk(t, {"bold": True})),
+              FmtStr(Chunk(t, {"fg": 31})), FmtStr(Chunk(t, {"fg": 31.0})), FmtStr(Chunk(t, {"underline": 0, "fg": 32}))]
     s = Suite(check, "C19.pairs", f"all ordered pairs of a {len(P)}-value pool (random runs over 9 texts x 7 attribute sets, plus same-display/"
               "different-boundary, same-text/different-formatting and empty-run values): ==, !=, hash, set/dict membership against "
               "'same terminal string'; each value against its own terminal string and text as plain str, both operand orders",
